@@ -195,7 +195,16 @@ class C01(e1.E1Check):
             if isinstance(x, (list, tuple)) and len(x) > 1 and x[0] == "a":
                 arr = np.array(x[1], dtype=x[2])
                 adv_empty = adv_empty or (int(arr.sum()) == 0 if arr.dtype == np.bool_ else arr.size == 0)
-        return {"items": "+".join(kinds), "adv_empty": adv_empty}
+        sig = {"items": "+".join(kinds), "adv_empty": adv_empty}
+        if "opt" in kinds and len(kinds) > 1:
+            # does the part of the slice before the option-type index select no rows / an option-type row?
+            items = sl[1:]
+            first = items[0]
+            if isinstance(first, (list, tuple)) and first[0] == "s":
+                sig["rows_selected"] = min(2, len(range(*slice(first[1], first[2], first[3]).indices(len(tvs)))))
+            if isinstance(first, int) or (isinstance(first, (list, tuple)) and first[0] == "s"):
+                sig["row_is_option"] = T[0] == "opt"
+        return sig
 
 
 if __name__ == "__main__":
